@@ -277,6 +277,60 @@ func c15sequential(rep *hx.Report, sets *hx.SetAdder) {
 			}
 		}
 	}
+	// the `pattern` keyword of a string schema, one-shot (recycled validators): every pattern after
+	// every other one. A recycled string validator must use the expression of ITS schema, and report
+	// an invalid one, whatever the previous schema asked for.
+	classify := func(e error) string {
+		switch {
+		case e == nil:
+			return "match"
+		case strings.Contains(e.Error(), "pattern is invalid"):
+			return "invalid-pattern"
+		}
+		return "no-match"
+	}
+	for _, first := range append([]string{""}, pats...) {
+		for _, p := range pats {
+			for _, k := range keys {
+				for variant := 0; variant < 2; variant++ {
+					validate.VerifSetRegexpCache()
+					resetPools()
+					rep.Inc("sequential_cases", 1)
+					var got string
+					if variant == 0 {
+						if first != "" {
+							s1, _ := parseSpecSchema(fmt.Sprintf(`{"type":"string","pattern":%q}`, first))
+							_ = validate.AgainstSchema(s1, "aa", strfmt.Default)
+						}
+						s2, _ := parseSpecSchema(fmt.Sprintf(`{"type":"string","pattern":%q}`, p))
+						got = classify(validate.AgainstSchema(s2, k, strfmt.Default))
+					} else {
+						if first != "" {
+							p1, _ := parseParam(fmt.Sprintf(`{"name":"w","in":"query","type":"string","pattern":%q}`, first))
+							validate.NewParamValidator(p1, strfmt.Default, validate.WithRecycleValidators(true)).Validate("aa")
+						}
+						p2, _ := parseParam(fmt.Sprintf(`{"name":"q","in":"query","type":"string","pattern":%q}`, p))
+						res := validate.NewParamValidator(p2, strfmt.Default, validate.WithRecycleValidators(true)).Validate(k)
+						got = "match"
+						if res != nil && len(res.Errors) > 0 {
+							got = classify(res.Errors[0])
+						}
+					}
+					m, ok := match(p, k)
+					want := "no-match"
+					if !ok {
+						want = "invalid-pattern"
+					} else if m {
+						want = "match"
+					}
+					sets.Add("observations", got)
+					if got != want {
+						fail(fmt.Sprintf("pattern keyword %q on %q after %q, variant %d", p, k, first, variant), fmt.Sprintf("after a one-shot validation with pattern %q, %s with pattern %q on %q answered %s, Go regexp says %s", first, []string{"AgainstSchema", "a recycling parameter validator"}[variant], p, k, got, want))
+					}
+				}
+			}
+		}
+	}
 	for i, p1 := range pats {
 		for j, p2 := range pats {
 			if j <= i {
